@@ -88,7 +88,7 @@ def run(ctx):
     # ---- D4 -----------------------------------------------------------------------------------
     fe = repo.func(MG, f"{M}._merge_executable")
     we = f"{MG}:{M}._merge_executable"
-    fe = canonicalise(fe, bind_roles(fe, {"winner": ("assign", "resolver(*executable)")}, we))
+    fe = canonicalise(fe, bind_roles(fe, {"winner": ("assign", "resolver(*executable)"), "other_path": ("assign", "paths", 1)}, we))
     ge = build_cfg(fe)
     se = need(we, calling(ge, attr="set_executability", recv="self.tt"), "self.tt.set_executability")
     ctx.check("D4-executable", we, not (set(se) & ge.assume({"file_status == 'deleted'": True}).reachable_from_entry()), "a deleted file's execute bit is not touched")
